@@ -4,7 +4,7 @@
    store = what the cache backend holds (timestamp, size, bytes per tile), run/step = the tile services over it. *)
 From Coq Require Import ZArith List Bool.
 Import ListNotations.
-From MP Require Import Base Cond Cond_proofs.
+From MP Require Import Base Cond Cond_proofs Gen_cond Cond_gen_proofs.
 Local Open Scope Z_scope.
 
 (* Once a tile is in the cache, repeated requests receive identical validators and bodies until it is rewritten
@@ -229,3 +229,14 @@ Theorem merged_wmsc_not_conditional :
   forall h tps max_age tiled body inm ims,
     serve_wms h tps max_age tiled (WBool true) body inm ims = Resp (new_resp body).
 Proof. exact serve_wms_merged. Qed.
+
+(* Tie to the source.  gen_not_modified is regenerated on every run from the body of Response.make_conditional
+   (translator/specs/cond.py -> gen/Gen_cond.v, statement by statement, fail closed; the method must end with the
+   304 block whose condition the kernel is).  The model's make_conditional IS this kernel applied to the ETag
+   comparison, the response's own timestamp and the parsed If-Modified-Since date: an edit of the method that changes
+   the decision (the comparison, the precedence of If-None-Match, a dropped None test) breaks this theorem. *)
+Theorem make_conditional_model_is_generated_from_source : forall tps r inm ims,
+  make_conditional tps r inm ims =
+  if gen_not_modified (etag_matches (r_etag r) inm) (r_ts r) (since_ticks tps (parse_httpdate ims))
+  then Resp (not_modified r) else Resp r.
+Proof. exact make_conditional_as_generated. Qed.
